@@ -99,4 +99,5 @@ class AstToAthenaSqlVisitor(AstToSqlVisitor):
     def sqlfunc_hassubset(self, *args: ast._Node) -> str:
         ":meta private:"
         args_sql = [self.visit(arg) for arg in args]
-        return f"CARDINALITY(ARRAY_INTERSECT({args_sql[0]}, {args_sql[1]})) = CARDINALITY({args_sql[1]})"
+        # Every element of the second array must occur in the first one:
+        return f"CARDINALITY(ARRAY_EXCEPT({args_sql[1]}, {args_sql[0]})) = 0"
